@@ -16,7 +16,7 @@ pub const RULE: &str = "case = (scoring matrix with finite non-wildcard entries,
 pub const REQUIRED: &[&str] = &[
     "arm.avx2", "arm.generic", "arm.sse2", "arm.dispatch[generic]", "arm.dispatch[sse2]", "arm.dispatch[avx2]",
     "arm.dispatch[auto]", "arm.score_position", "arm.generic.protein", "class.presaturation_sum>255",
-    "class.wildcard_in_window", "scanner.own_score_threshold", "class.finite_wildcard_above_row_min", "class.consensus_planted", "class.flat_matrix",
+    "class.wildcard_in_window", "class.L=M_or_M+1", "scanner.own_score_threshold", "class.finite_wildcard_above_row_min", "class.consensus_planted", "class.flat_matrix",
     "dispatch_forced.generic", "dispatch_forced.sse2", "dispatch_forced.avx2",
 ];
 
@@ -144,7 +144,11 @@ fn run_dna(case: u64, rng: &mut Rng, rep: &mut Report) {
     let m = if rng.chance(0.6) { rng.range(8, 40) } else { rng.range(1, 12) };
     let fam = rng.below(7);
     let (rows, fam_name) = gen_c08_matrix(rng, k, m, fam);
-    let l = match rng.below(4) {
+    let l = match rng.below(5) {
+        4 => {
+            rep.cover("class.L=M_or_M+1");
+            m + rng.below(2)
+        }
         0 => rng.range(m, m + 40),
         1 => rng.range(m, 400),
         _ => rng.range(m, 1500),
